@@ -795,12 +795,12 @@ impl StaticsArena {
         annotations.sort_unstable();
         annotations.dedup();
 
-        let normalized = annotations
-            .iter()
-            .map(|annotation| {
-                self.normalized_at(*annotation).cloned().expect("top annotation was not normalized")
-            })
-            .collect();
+        // An annotation that still holds an unsolved hole has no normal form; the
+        // missing solution is already recorded as an error of the rejected program.
+        let (annotations, normalized) = annotations
+            .into_iter()
+            .filter_map(|annotation| Some((annotation, self.normalized_at(annotation).cloned()?)))
+            .unzip();
         self.annotation_norms = NormalizedAnnotations::with_parallel(annotations, normalized);
     }
 
